@@ -1387,6 +1387,106 @@ theorem stageCount_zero_iff (top : List Mark) : stageCount top = 0 ↔ ∀ m ∈
     · simp [hm, ih]
 
 
+
+/-! ### blocks above a checkpoint: older staging levels may be released meanwhile -/
+
+theorem cpCount_dropFirstStage (ms : List Mark) : cpCount (dropFirstStage ms) = cpCount ms := by
+  induction ms with
+  | nil => rfl
+  | cons m r ih =>
+    simp only [dropFirstStage]
+    by_cases hm : m.isStage
+    · simp [hm, cpCount]
+    · simp [hm, cpCount, ih]
+
+theorem dropFirstStage_below (fm : Mark) (rest : List Mark) (hfm : fm.isStage = false) :
+    ∀ top : List Mark, stageCount top = 0 →
+      dropFirstStage (top ++ fm :: rest) = top ++ fm :: dropFirstStage rest := by
+  intro top
+  induction top with
+  | nil => intro _; simp [dropFirstStage, hfm]
+  | cons m r ih =>
+    intro h
+    simp only [stageCount] at h
+    by_cases hm : m.isStage
+    · simp [hm] at h
+    · simp [hm] at h; simp [dropFirstStage, hm, ih h]
+
+theorem dropStages_succ (n : Nat) (ms : List Mark) : dropStages (n + 1) ms = dropFirstStage (dropStages n ms) := by
+  induction n generalizing ms with
+  | zero => rfl
+  | succ n ih => simp only [dropStages] at ih ⊢; exact ih (dropFirstStage ms)
+
+theorem cpCount_dropStages (n : Nat) (ms : List Mark) : cpCount (dropStages n ms) = cpCount ms := by
+  induction n generalizing ms with
+  | zero => rfl
+  | succ n ih => simp [dropStages, ih, cpCount_dropFirstStage]
+
+theorem run_block_cp (fm : Mark) (hfm : fm.isStage = false) (ops : List BOp) :
+    ∀ (d n d' n' : Nat) (cur : List KV) (top rest : List Mark),
+    stageCount top = d → cpBlock d n ops = some (d', n') → RevertsAtLeast (cpCount rest) ops →
+    ∃ cur' top' k, Buf.run ⟨cur, top ++ fm :: rest⟩ ops = ⟨cur', top' ++ fm :: dropStages k rest⟩ ∧
+      stageCount top' = d' ∧ n + k = n' := by
+  induction ops with
+  | nil =>
+    intro d n d' n' cur top rest hl hn _
+    simp [cpBlock] at hn
+    exact ⟨cur, top, 0, rfl, hn.1 ▸ hl, hn.2⟩
+  | cons op r ih =>
+    intro d n d' n' cur top rest hl hn hf
+    have hf' := (revertsAtLeast_cons hf).2
+    cases op with
+    | set k v =>
+      simp only [cpBlock] at hn
+      simp only [Buf.run, List.foldl_cons, Buf.apply]
+      split
+      · exact ih d n d' n' cur top rest hl hn hf'
+      · exact ih d n d' n' _ top rest hl hn hf'
+    | del k =>
+      simp only [cpBlock] at hn
+      exact ih d n d' n' _ top rest hl hn hf'
+    | staging =>
+      simp only [cpBlock] at hn
+      have := ih (d + 1) n d' n' cur (⟨true, cur⟩ :: top) rest (by simp [stageCount, hl]; omega) hn hf'
+      simpa [Buf.run, Buf.apply, Buf.staging] using this
+    | checkpoint =>
+      simp only [cpBlock] at hn
+      have := ih d n d' n' cur (⟨false, cur⟩ :: top) rest (by simp [stageCount, hl]) hn hf'
+      simpa [Buf.run, Buf.apply, Buf.checkpoint] using this
+    | release =>
+      cases d with
+      | zero =>
+        simp only [cpBlock] at hn
+        have hf'' : RevertsAtLeast (cpCount (dropFirstStage rest)) r := by rw [cpCount_dropFirstStage]; exact hf'
+        obtain ⟨cur', top', k, h1, h2, h3⟩ := ih 0 (n + 1) d' n' cur top (dropFirstStage rest) hl hn hf''
+        refine ⟨cur', top', k + 1, ?_, h2, by omega⟩
+        simp only [Buf.run, List.foldl_cons, Buf.apply, Buf.releaseTop, dropFirstStage_below fm rest hfm top hl]
+        simpa [Buf.run, dropStages] using h1
+      | succ d =>
+        simp only [cpBlock] at hn
+        obtain ⟨top', h1, h2⟩ := dropFirstStage_top (fm :: rest) top d hl
+        have := ih d n d' n' cur top' rest h2 hn hf'
+        simpa [Buf.run, Buf.apply, Buf.releaseTop, h1] using this
+    | cleanup =>
+      cases d with
+      | zero => simp [cpBlock] at hn
+      | succ d =>
+        simp only [cpBlock] at hn
+        obtain ⟨sv, top', h1, h2⟩ := cutAtStage_top (fm :: rest) top d hl
+        have := ih d n d' n' sv top' rest h2 hn hf'
+        simpa [Buf.run, Buf.apply, Buf.cleanupTop, h1] using this
+    | revert j =>
+      simp only [cpBlock] at hn
+      have hfloor : fm.isStage = true ∨ (fm.isStage = false ∧ cpCount rest ≤ j) := by
+        have := (revertsAtLeast_cons hf).1
+        simp [BOp.revertsAtLeast] at this
+        exact Or.inr ⟨hfm, this⟩
+      rcases cutAtCp_top fm rest j hfloor top with h | ⟨sv, top', h1, h2⟩
+      · have := ih d n d' n' cur top rest hl hn hf'
+        simpa [Buf.run, Buf.apply, Buf.revert, h] using this
+      · have := ih d n d' n' sv top' rest (h2.trans hl) hn hf'
+        simpa [Buf.run, Buf.apply, Buf.revert, h1] using this
+
 /-! ### the result of batch get is a well formed map -/
 
 theorem snapBatchLoop_sorted (snap : List KV) (ks : List Bytes) (m : List KV) : IsMap m → IsMap (snapBatchLoop snap ks m) := by
